@@ -14,7 +14,7 @@ import (
 // Probe kinds: calls whose outcome the model does not predict. They are traced (panic yes/no, resulting state) so
 // that executions under different build configurations can be compared with each other (C20).
 var probeKinds = []string{
-	"q-entity-before-next", "q-get-before-next", "q-entity-after-exhaustion", "q-get-after-exhaustion", "q-next-after-exhaustion",
+	"q-entity-before-next", "q-get-before-next", "q-entity-after-exhaustion", "q-get-after-exhaustion", "q-next-after-exhaustion", "q-next-twice-after-exhaustion", "q-next-twice-after-close",
 	"q-next-after-close", "q-entity-after-close", "q-count-after-close", "q-relation-before-next",
 	"unsafe-get-missing", "unsafe-getrel-missing", "unsafe-has-missing", "map-get-missing", "map-set-missing", "mapn-set-missing", "mapn-getrel-missing",
 	"map-getunchecked-dead", "unsafe-hasunchecked-dead",
@@ -105,6 +105,25 @@ func (it *Interp) execProbe(b *Backend, op *Op) string {
 		default:
 			return fmt.Sprint(q.GetRelation(0))
 		}
+	case "q-next-twice-after-exhaustion", "q-next-twice-after-close":
+		// a caller that recovers from the first rejected Next and tries again
+		q := b.openQueryOn(it.M, op.F, nil)
+		n := 0
+		if op.Sub == "q-next-twice-after-close" {
+			for i := 0; i < op.N && q.Next(); i++ {
+				n++
+			}
+			q.Close()
+		} else {
+			for q.Next() {
+				n++
+			}
+		}
+		defer q.Close()
+		p1 := try(func() { q.Next() })
+		var r2 bool
+		p2 := try(func() { r2 = q.Next() })
+		return fmt.Sprint(n, " first:", p1 != nil, " second:", p2 != nil, r2, " locked:", b.W.IsLocked() != (it.M.OpenQ > 0))
 	case "q-entity-after-exhaustion", "q-get-after-exhaustion", "q-next-after-exhaustion":
 		q := b.openQueryOn(it.M, op.F, nil)
 		n := 0
